@@ -101,7 +101,7 @@ def r15_1(ctx, R):
 STATE_HEAP = "heap"
 
 
-def state_set(ctx, b, counter, rem_fields):
+def state_set(ctx, b, counter, rem_fields, _depth=0, _seen=None):
     """Which state does an observer read: subset of {counter, rem, heap}."""
     fl = ctx.flow(b)
     lv = deep_leaves(ctx, b, fl.local_expr(0), 4)
@@ -111,6 +111,16 @@ def state_set(ctx, b, counter, rem_fields):
         if t["k"] == "switch" and not b.is_cleanup(bb):
             lv |= deep_leaves(ctx, b, fl.operand_expr(t["discr"]), 4)
     s = set()
+    # observers built on other observers of the crate (adapter -> ordered queue -> inner queue -> slot map): what the callee
+    # reads -- including through ITS branches -- is read
+    _seen = _seen or {b.path}
+    if _depth < 5:
+        for bb, t, fn in b.calls():
+            cb = ctx.facts.bodies.get(fn_name(fn)) if fn else None
+            if cb is not None and not b.is_cleanup(bb) and cb.path not in _seen and cb.n <= 12 and \
+                    re.search(r"::(len|is_empty|is_terminated|capacity|is_full)$", cb.path):
+                _seen.add(cb.path)
+                s |= state_set(ctx, cb, counter, rem_fields, _depth + 1, _seen)
     if ("field", counter) in lv:
         s.add("running")
     for rf in rem_fields:
